@@ -36,11 +36,17 @@ func (r exceededRule) step(tc *traceClient, x *core.TSCtx, site ssa.Instruction,
 		}
 		return "skipped"
 	case "M:E":
+		if q == "read" {
+			return "refused" // a refusal that ends the connection (e.g. the server is closing): nothing may follow it
+		}
 		if q != "skipped" {
 			return bad("an ErrorResponse is sent before the oversized body was skipped: the unread body would be parsed as messages")
 		}
 		return "reported"
 	case "M:Z":
+		if q == "refused" {
+			return bad("an ErrorResponse was sent without skipping an oversized body and the cycle continues with ReadyForQuery: the unread body would be parsed as messages")
+		}
 		if q != "reported" {
 			return bad("ReadyForQuery without the preceding ErrorResponse")
 		}
@@ -52,6 +58,9 @@ func (r exceededRule) step(tc *traceClient, x *core.TSCtx, site ssa.Instruction,
 func (r exceededRule) ret(tc *traceClient, x *core.TSCtx, ret *ssa.Return, q string, err core.ErrK) string {
 	if len(x.Stack) != 0 {
 		return q
+	}
+	if q == "refused" && err != core.KNonNil {
+		tc.fail("C10.R4", x, ret, "consumeSingleCommand:return@refused", "a message that is refused without being handled ends the connection", "after an ErrorResponse that was not preceded by the skip the iteration can end without error: the loop continues although the message (and possibly its unread body) was not handled")
 	}
 	if (q == "skipped" || q == "reported") && err != core.KNonNil {
 		tc.fail("C10.R4", x, ret, "consumeSingleCommand:return@"+q, "after skipping an oversized message the client is told (ErrorResponse then ReadyForQuery) before the loop continues", "the iteration can end without error in state '"+q+"': the oversized message is dropped silently or the cycle is left open")
@@ -539,6 +548,40 @@ func (c *Ctx) slurpExact(rule string) {
 			R.Check(okRem && okMax && okPos, rule, "Slurp:chunk-bounds", c.at(ci), "each chunk is between 1 and min(remaining, limit) bytes: the skip never buffers more than the limit and never over-reads into the next message", "E-LIN: 1 <= chunk <= remaining and chunk <= MaxMessageSize", sprintf("chunk <= remaining: %v, chunk <= limit: %v, chunk >= 1: %v", okRem, okMax, okPos))
 		}
 	}
+	// what was skipped is gone: when Slurp returns successfully the message window is empty, so nothing of the skipped
+	// body can be taken for data by whoever reads next (the COPY row reader decodes a non-empty window)
+	{
+		l := core.NewLin(c.P, sl, c.modSets(), c.summaries(rule))
+		n, okAll := 0, true
+		for ret, snap := range l.FM.AtReturn {
+			cls := c.Err().Classify(errOperand(ret), ret.Block())
+			if !cls.MayBeNil() {
+				continue
+			}
+			found := false
+			for key, mv := range snap {
+				if !strings.HasSuffix(key, ".Msg") {
+					continue
+				}
+				found = true
+				n++
+				var lt core.Term
+				if mv.Kind == core.MStore {
+					lt = l.LenOf(mv.Val)
+				} else {
+					lt = core.Term{K: core.TLen, M: mv}
+				}
+				if !l.Prove(ret, lt, core.Zero, 0) {
+					okAll = false
+				}
+			}
+			if !found {
+				okAll = false
+			}
+		}
+		R.Check(okAll && n > 0, rule, "Slurp:leaves-empty-window", c.atFn(sl), "after a message was skipped nothing of it remains in the message window", sprintf("len(Msg) == 0 proved at %d successful return(s) (E-LIN with the verified reset summary)", n), "Slurp can return successfully with the last skipped chunk still in the window: a reader that decodes a non-empty window before fetching (BinaryCopyReader.Read) takes skipped bytes for data")
+	}
+
 }
 
 func (c *Ctx) c10Slurp() { c.slurpExact("C10.R3") }
